@@ -9,6 +9,7 @@ import (
 	"encoding/json"
 	"fmt"
 	"runtime"
+	"sort"
 	"time"
 
 	"github.com/onflow/atree"
@@ -270,6 +271,11 @@ func structEdit(r *Rng, id RegID, raw []byte, stats *Stats) []byte {
 	if !p.IsMeta() && bytes.Contains(b, []byte{0xd8, 0xf6}) && r.Chance(0.5) {
 		choose = 0 // registers with type-info references are rare: edit those references often
 	}
+	if p.FlagIED && r.Chance(0.4) {
+		if out := coordinatedInlineEdit(r, p, stats); out != nil {
+			return out
+		}
+	}
 	switch {
 	case p.IsMeta():
 		// child count vs number of child records
@@ -279,8 +285,13 @@ func structEdit(r *Rng, id RegID, raw []byte, stats *Stats) []byte {
 		}
 		n := len(p.Children)
 		base := len(b) - rec*n
-		newCount := []int{0, 1, n - 1, n + 1, 0xffff, n}[r.Intn(6)]
+		newCount := []int{0, 1, n - 1, n + 1, 0xffff, n, n | 0x8000, n + 0x4000, n + 0x2000, n + 0x1000}[r.Intn(10)]
 		keep := []int{0, n, n - 1, newCount}[r.Intn(4)]
+		if newCount > 0xfff && newCount != 0xffff {
+			// counts that alias the true one when multiplied by the record size in 16-bit arithmetic
+			keep = n
+			stats.Inc("disk.struct.count-alias")
+		}
 		if keep < 0 {
 			keep = 0
 		}
@@ -340,7 +351,7 @@ func structEdit(r *Rng, id RegID, raw []byte, stats *Stats) []byte {
 		}
 		if p.Kind == "arr.data" {
 			// 0x99 hi lo
-			binary.BigEndian.PutUint16(b[off+1:], uint16([]int{0, 1, len(p.Elems) + 1, len(p.Elems) - 1, 0xffff}[r.Intn(5)]&0xffff))
+			binary.BigEndian.PutUint16(b[off+1:], uint16([]int{0, 1, len(p.Elems) + 1, len(p.Elems) - 1, 0xffff, len(p.Elems) | 0x8000}[r.Intn(6)]&0xffff))
 			stats.Inc("disk.struct.element-count")
 			return b
 		}
@@ -370,12 +381,113 @@ func structEdit(r *Rng, id RegID, raw []byte, stats *Stats) []byte {
 	}
 }
 
+// coordinatedInlineEdit changes fields that a decoder must cross-check against each other: the element count
+// recorded in a shared (inlined extra data) entry of a map or compact map, and the number of values the inlined
+// containers referring to that entry carry - one side only, or both sides consistently with each other but not
+// with the entry's key list.
+func coordinatedInlineEdit(r *Rng, p *PReg, stats *Stats) []byte {
+	var cand []int
+	for i, x := range p.IED {
+		if x.Kind == "cmap" || x.Kind == "map" {
+			cand = append(cand, i)
+		}
+	}
+	if len(cand) == 0 {
+		return nil
+	}
+	xi := cand[r.Intn(len(cand))]
+	x := p.IED[xi]
+	var users []*PElem
+	p.EachElem(func(e *PElem) {
+		if e.Kind == "inl.cmap" && e.XI == xi {
+			users = append(users, e)
+		}
+	})
+	n := len(x.Keys)
+	if x.Kind == "map" {
+		n = int(x.Count)
+	}
+	nc := []int{n + 1, n + 2, n - 1, 0, 23, 24, n + 1}[r.Intn(7)]
+	if nc < 0 {
+		nc = 0
+	}
+	type edit struct {
+		pos, del int
+		ins      []byte
+	}
+	var edits []edit
+	uintHead := func(v int) []byte {
+		switch {
+		case v < 24:
+			return []byte{byte(v)}
+		case v < 256:
+			return []byte{0x18, byte(v)}
+		}
+		return []byte{0x19, byte(v >> 8), byte(v)}
+	}
+	headLen := func(pos int) int {
+		switch ai := p.Raw[pos] & 0x1f; {
+		case ai < 24:
+			return 1
+		case ai == 24:
+			return 2
+		case ai == 25:
+			return 3
+		case ai == 26:
+			return 5
+		}
+		return 9
+	}
+	mode := r.Intn(4) // 0: entry only, 1: users only, 2,3: both
+	if mode != 1 || len(users) == 0 {
+		edits = append(edits, edit{x.CountPos, headLen(x.CountPos), uintHead(nc)})
+	}
+	if mode != 0 {
+		for ui, u := range users {
+			if mode == 3 && ui > 0 {
+				break // only the first user follows the entry
+			}
+			have := len(u.Compact)
+			ah := uintHead(nc)
+			ah[0] |= 0x80 // array head, shortest form (as the encoder writes it)
+			edits = append(edits, edit{u.CntPos, headLen(u.CntPos), ah})
+			end := u.Start + u.Size
+			switch {
+			case nc > have:
+				one := []byte{0xd8, byte(tagU64), 0x01}
+				if have > 0 {
+					l := u.Compact[have-1]
+					one = p.Raw[l.Start : l.Start+l.Size]
+				}
+				var ins []byte
+				for k := have; k < nc; k++ {
+					ins = append(ins, one...)
+				}
+				edits = append(edits, edit{end, 0, ins})
+			case nc < have:
+				from := u.Compact[nc].Start
+				edits = append(edits, edit{from, end - from, nil})
+			}
+		}
+	}
+	sort.SliceStable(edits, func(i, j int) bool { return edits[i].pos > edits[j].pos })
+	b := append([]byte{}, p.Raw...)
+	for _, e := range edits {
+		if e.pos < 0 || e.pos+e.del > len(b) {
+			return nil
+		}
+		b = append(b[:e.pos:e.pos], append(append([]byte{}, e.ins...), b[e.pos+e.del:]...)...)
+	}
+	stats.Inc("disk.struct.coordinated-count")
+	return b
+}
+
 func init() {
 	ps := &PropSpec{
 		ID: "C19", Level: "exploration",
 		Verdict: []string{"decode."},
-		Rule: "disk corruption as a fault kind: the registers of a freshly generated healthy ledger (every slab kind: array/map data and index slabs, external collision groups, large-value slabs, slabs with inlined arrays/maps/compact maps and shared type infos; version 1 from the library plus the same slabs re-assembled in the version-0 layout) receive seeded stored-byte faults - bit flips, byte sets, truncation (torn write), extension, splice of another register's tail (misdirected write), edits of CBOR length/count heads and tag numbers, format-aware edits located with the independent parser (child count vs child records of index slabs, element counts, digest lengths, indexes into the shared type-info / extra-data section), head-flag flips, byte insertion/deletion - and plain random strings of length 0..64; each is read back through DecodeSlab, PersistentSlabStorage.Retrieve, BatchPreload (1 and 4 workers, parallel path) and the raw head queries; oracle: no panic, returns (per-run watchdog in the orchestrator), heap allocated during the call <= 1 MiB + 256 x input length (harness-chosen reading of 'out of proportion'), accessors of accepted slabs panic-free. Non-trivial = a run that probed >= 50 mutated registers of >= 3 slab kinds with both accepted and rejected outcomes; distinct by corpus hash",
-		ExpectedReach: []string{"decode.accepted", "decode.rejected", "disk.flip", "disk.tear", "disk.splice", "disk.head-edit", "disk.random", "disk.struct.child-count", "disk.struct.shared-section-index", "disk.struct.element-count", "disk.struct.map-elements-head", "corpus.v0", "corpus.kind.arr.meta", "corpus.kind.map.coll", "corpus.kind.storable", "corpus.kind.map.meta"},
+		Rule: "disk corruption as a fault kind: the registers of a freshly generated healthy ledger (every slab kind: array/map data and index slabs, external collision groups, large-value slabs, slabs with inlined arrays/maps/compact maps and shared type infos; version 1 from the library plus the same slabs re-assembled in the version-0 layout) receive seeded stored-byte faults - bit flips, byte sets, truncation (torn write), extension, splice of another register's tail (misdirected write), edits of CBOR length/count heads and tag numbers, format-aware edits located with the independent parser (child count vs child records of index slabs including counts that alias the true one in 16-bit arithmetic, element counts, digest lengths, indexes into the shared type-info / extra-data section, and coordinated edits of the count recorded in a shared map / compact-map entry together with the number of values of the inlined containers that refer to it), head-flag flips, byte insertion/deletion - and plain random strings of length 0..64; each is read back through DecodeSlab, PersistentSlabStorage.Retrieve, BatchPreload (1 and 4 workers, parallel path) and the raw head queries; oracle: no panic, returns (per-run watchdog in the orchestrator), heap allocated during the call <= 1 MiB + 256 x input length (harness-chosen reading of 'out of proportion'), accessors of accepted slabs panic-free. Non-trivial = a run that probed >= 50 mutated registers of >= 3 slab kinds with both accepted and rejected outcomes; distinct by corpus hash",
+		ExpectedReach: []string{"decode.accepted", "decode.rejected", "disk.flip", "disk.tear", "disk.splice", "disk.head-edit", "disk.random", "disk.struct.child-count", "disk.struct.shared-section-index", "disk.struct.element-count", "disk.struct.map-elements-head", "disk.struct.coordinated-count", "disk.struct.count-alias", "corpus.v0", "corpus.kind.arr.meta", "corpus.kind.map.coll", "corpus.kind.storable", "corpus.kind.map.meta"},
 		Assumptions: []string{"an accepted slab is not required to be meaningful", "heap proportionality bound chosen by the harness: 1 MiB + 256 x len(input), measured with runtime.MemStats.TotalAlloc around each call"},
 	}
 	type aux struct {
